@@ -444,3 +444,12 @@ func LoadReplay(path string, v any) error {
 	}
 	return json.Unmarshal(w.Case, v)
 }
+
+// Remarshal converts a decoded JSON value (map[string]any ...) into a typed value.
+func Remarshal(in any, out any) error {
+	b, err := json.Marshal(in)
+	if err != nil {
+		return err
+	}
+	return json.Unmarshal(b, out)
+}
